@@ -147,11 +147,15 @@ def run(chk, facts, tier, only=None):
     def r5():
         c04.rule_tables(chk, facts)
 
+    def r6():
+        de_rules.rule_unrolled(chk, facts)
+
     for rid, desc, fn in (("C02.R1", "every wire read is preceded by tests of both the expected and the wire type", r1),
                           ("C02.R2", "the optional-omission set is {opt, null, reserved} at every site that implements it", r2),
                           ("C02.R3", "back-tracking below opt happens only for coercion (subtype) errors", r3),
                           ("C02.R4", "header validation is on the decoding path", r4),
-                          ("C02.R5", "cross-constructor coercions of the decoder equal the subtype axioms", r5)):
+                          ("C02.R5", "cross-constructor coercions of the decoder equal the subtype axioms", r5),
+                          ("C02.R6", "type names are resolved (unroll_type) before any test of the expected / wire type", r6)):
         if only and only != rid:
             continue
         chk.run_rule(rid, desc, fn)
